@@ -34,6 +34,7 @@ NOT_REACHED = ['raptor path (C20)', 'more than two pilots / pilot death (C12, C1
 BUDGET = {'quick': 110, 'thorough': 1500}
 
 FAULTS = ['tin_missing_source', 'ain_missing_source', 'aout_missing_source', 'tout_missing_source',
+          'ain_missing_link', 'aout_missing_link',
           'no_launcher', 'spawn', 'open',
           'exc:tsched', 'exc:tin', 'exc:ain', 'exc:aexec', 'exc:aout', 'exc:tout']
 
